@@ -422,9 +422,9 @@ pub fn run(ctx: &mut Ctx) {
     });
 
     // ------------------------------------------------ very long lists (no enclosing length: more than 64 KiB of extensions)
-    ctx.sweep("long-lists", 6, |ctx, idx| {
+    ctx.sweep("long-lists", 11, |ctx, idx| {
         let mut rng = Rng::new(idx ^ 0x10_0000);
-        let n = [16384usize, 16385, 20000, 40000, 3, 1][idx as usize];
+        let n = [16384usize, 16385, 20000, 40000, 3, 1, 65535, 65536, 65537, 70000, 131073][idx as usize];
         let mut l: Vec<AExt> = Vec::with_capacity(n);
         for i in 0..n {
             l.push(match i % 4 {
@@ -434,7 +434,7 @@ pub fn run(ctx: &mut Ctx) {
                 _ => AExt::Unknown(0x4000 + (i % 1000) as u16, vec![i as u8]),
             });
         }
-        if idx >= 4 {
+        if idx == 4 || idx == 5 {
             // few, but huge
             l = (0..n).map(|_| AExt::Cookie(rng.bytes(65535))).collect();
         }
@@ -619,7 +619,33 @@ pub fn run(ctx: &mut Ctx) {
             0 => {
                 // the four empty-by-definition types carrying data
                 let t = *r.pick(&[22u16, 23, 49, 13172]);
-                let data = gen::opaque_min(r, 1, 40);
+                // random bytes, or data that LOOKS like something a peer might plausibly attach: a protocol-name list
+                // with 8-bit lengths (what NPN servers send), an ALPN body, printable text, the content of another extension
+                let data = match r.below(6) {
+                    0 => {
+                        let names: [&[u8]; 5] = [b"h2", b"http/1.1", b"spdy/3.1", b"x", b"grpc-exp"];
+                        let k = r.usize(1, 4);
+                        let mut v = Vec::new();
+                        for _ in 0..k {
+                            let n = *r.pick(&names);
+                            v.push(n.len() as u8);
+                            v.extend_from_slice(n);
+                        }
+                        v
+                    }
+                    1 => {
+                        let mut w2 = W::new();
+                        gen::ext_variant(r, gen::TINY, 8).enc_data(&mut w2);
+                        if w2.b.is_empty() { vec![1] } else { w2.b }
+                    }
+                    2 => (0..r.usize(1, 30)).map(|_| 0x21 + r.below(0x5e) as u8).collect(),
+                    3 => {
+                        let mut w2 = W::new();
+                        gen::ext(r, gen::TINY).enc_data(&mut w2);
+                        if w2.b.is_empty() { vec![0] } else { w2.b }
+                    }
+                    _ => gen::opaque_min(r, 1, 40),
+                };
                 let mut w = W::new();
                 w.u16(t);
                 w.vec16("extension_data_length", &data);
